@@ -93,4 +93,15 @@ theorem C07_failed_call_is_reported (st : DoerSt) (r : OpR FS) (c : ErrClass) (h
 theorem C07_ok_call_is_silent (st : DoerSt) (fs' : FS) (c : ErrClass) :
     reply st (.ok fs') c = .ok { st with fs := fs' } [] := rfl
 
+/-- **… so a sync that has to remove a folder holding a hidden entry ends in an error** (on the file-system model,
+for every tree pair and filter verdict): if the plan deletes the destination folder `p` while an entry directly beneath it
+is hidden by the filters — no deletion names it — the destination half of the sync ends `err`: not `ok` (the failure is
+not lost), not `escape` (no link is followed on the way). -/
+theorem C07_hidden_entry_fails_fs {vis : FPath → Bool} {fs0 : FS} {r : FPath} {ld : List (FPath × Node)} {src : FPath → Option SEntry}
+    {ls : List (FPath × SEntry)} (hw : DestWF vis fs0 r ld) (hs : SrcWF vis src ls)
+    (p : FPath) (c : Comp) (n : Node) (hdel : (p, Node.folder) ∈ planDel src ld)
+    (hchild : fs0.get (r ++ (p ++ [c])) = some n) (hhidden : vis (p ++ [c]) = false) :
+    syncDest fs0 r src ls ld = .err :=
+  sync_hidden_child_fails hw hs p c n hdel hchild hhidden
+
 end Rj.C07
